@@ -575,6 +575,8 @@ def drop_col(case, j):
 def shrink(case, prob, rounds=3):
     cur = sub_case(case, prob["splits"])
     curp = prob
+    if len(cur["rows"]) > 200:
+        rounds = 1           # long tables: one round only (each candidate is a full implementation + Coq run)
     for _ in range(rounds):
         cands = []
         if len(cur["cols"]) > 1:
@@ -634,6 +636,24 @@ def reentry(case, sizes):
     return False
 
 
+def run_scale(run, scale_cases):
+    """thorough tier: rare-value report over ~1e6 distinct pairs against an exact recount (Python side only)"""
+    outdir = os.path.join(vlib.CACHE, "c13_scale_%d" % os.getpid())
+    res = vlib.run_impl("impl_c13.py", {"cases": [], "outdir": outdir, "scale": scale_cases})["scale"]
+    ok = True
+    for sc, r in zip(scale_cases, res):
+        run.count_case(sc, True)
+        if not r["ok"]:
+            ok = False
+            run.violation("counterexample", "impl-raises", case=sc, impl=r["error"], clause="compute_value_counts terminates normally")
+        elif r["n_missing"] or r["n_spurious"] or r["n_wrong"]:
+            ok = False
+            run.violation("counterexample", "C13_rare_spec", case=sc, impl=r, model="exact recount: %d rare values" % r["exact"],
+                          clause="C13_rare_spec at scale: report = {((col, v), total) | 1 <= total <= thr} (exact recount by Counter)")
+    run.oblige("correspondence:rare-value report at scale (1e6 distinct pairs, exact recount)", ok)
+    run.cov["scale_cases"] = [dict(sc, rows=r.get("rows"), report=r.get("report")) for sc, r in zip(scale_cases, res)]
+
+
 def check(run, replay):
     model_ok, log = vlib.build(["Stats/Quality.vo"])
     run.oblige("build:model Stats/Quality.vo", model_ok, "" if model_ok else log[-1500:])
@@ -641,8 +661,15 @@ def check(run, replay):
         raise vlib.Broken("build:Stats/Quality.vo", log)
     vlib.standard_proof_phase(run, ["Props/C13.vo"], "Outrank.Props.C13", THEOREMS)
 
+    if replay is not None and replay["case"].get("kind") == "scale":
+        run_scale(run, [replay["case"]])
+        return
     cases = [replay["case"]] if replay is not None else generate(run)
     problems, infos = evaluate(cases)
+    if replay is None and run.tier == "thorough":
+        # 32-bit-collision scale (seeded C13-F): ~4e1 colliding fingerprint pairs expected at 1.2e6 distinct values
+        run_scale(run, [{"kind": "scale", "n_distinct": 1200000, "nbatches": 40, "thr": 2, "seed": run.seed, "layout": "shuffled"},
+                        {"kind": "scale", "n_distinct": 800000, "nbatches": 16, "thr": 2, "seed": run.seed + 1, "layout": "frequent-first"}])
 
     hist = {"family": {}, "rows": {}, "ncols": {}, "batches_per_history": {}, "thr": {}, "small_bound": 0, "via_batch_ranking": 0,
             "histories": 0, "histories_with_reentry_of_a_retired_pair": 0}
@@ -684,7 +711,7 @@ def check(run, replay):
                 continue
             seen_obl.add(p["obligation"])
             small, sp = (sub_case(case, p["splits"]), p)
-            if replay is None:
+            if replay is None and len(seen_obl) <= 2:        # shrink the first two obligations only (each round is a full run)
                 try:
                     small, sp = shrink(case, p)
                 except Exception:
